@@ -652,4 +652,531 @@ theorem split_complete (s : St) (ks : List Key) (k : Key) (hk : k ∈ ks) :
       have := hok.2.1 k hm
       rw [h1] at this; cases this
 
+/-! ### liveness of `drain` -/
+
+/-- a task that will still answer its waiters: its batch is in flight, or it is an
+    `ImmediateLoad` that has not been polled yet -/
+def Live (t : Task) : Prop := t.phase = .flight ∨ (t.fetch = false ∧ t.phase = .fresh)
+
+/-- request ids are used once, and every waiting request sits in the pending queue or among the
+    waiters of a task that will still answer -/
+structure Inv2 (s : St) : Prop where
+  uniq : (s.reqs.map (·.1)).Nodup
+  wait : ∀ r, (r, RSt.waiting) ∈ s.reqs →
+    (∃ p ∈ s.pending, p.rid = r) ∨ ∃ t ∈ s.tasks, Live t ∧ ∃ p ∈ t.waiters, p.rid = r
+
+def core2 (s : St) : List Pend × List Task × List (Nat × RSt) := (s.pending, s.tasks, s.reqs)
+
+theorem Inv2.congr {s s' : St} (h : core2 s' = core2 s) (hi : Inv2 s) : Inv2 s' := by
+  simp only [core2, Prod.mk.injEq] at h
+  obtain ⟨h1, h2, h3⟩ := h
+  constructor
+  · rw [h3]; exact hi.uniq
+  · rw [h1, h2, h3]; exact hi.wait
+
+theorem lookup_of_mem : ∀ {l : List (Nat × RSt)} {r : Nat} {x : RSt},
+    (l.map (·.1)).Nodup → (r, x) ∈ l → l.lookup r = some x := by
+  intro l
+  induction l with
+  | nil => intro r x _ h; cases h
+  | cons a l ih =>
+    intro r x hn hm
+    obtain ⟨a1, a2⟩ := a
+    simp only [List.map_cons, List.nodup_cons] at hn
+    rw [List.lookup_cons]
+    rcases List.mem_cons.1 hm with h | h
+    · cases h; simp
+    · have hne : r ≠ a1 := by
+        intro e; subst e
+        exact hn.1 (List.mem_map.2 ⟨(r, x), h, rfl⟩)
+      have : (r == a1) = false := by simpa using hne
+      rw [this]; exact ih hn.2 h
+
+theorem not_mem_of_lookup_none : ∀ {l : List (Nat × RSt)} {r : Nat},
+    l.lookup r = none → r ∉ l.map (·.1) := by
+  intro l
+  induction l with
+  | nil => intro r _ h; cases h
+  | cons a l ih =>
+    intro r h hm
+    obtain ⟨a1, a2⟩ := a
+    rw [List.lookup_cons] at h
+    by_cases e : r = a1
+    · subst e; simp at h
+    · have : (r == a1) = false := by simpa using e
+      rw [this] at h
+      simp only [List.map_cons, List.mem_cons] at hm
+      rcases hm with hm | hm
+      · exact e hm
+      · exact ih h hm
+
+theorem map_fst_setStatus (l : List (Nat × RSt)) (r : Nat) (x : RSt) :
+    (l.map (fun p => if p.1 = r then (p.1, x) else p)).map (·.1) = l.map (·.1) := by
+  rw [List.map_map]
+  apply List.map_congr_left
+  intro p _
+  simp only [Function.comp]
+  split <;> rfl
+
+theorem mem_setStatus {l : List (Nat × RSt)} {r r' : Nat} {x : RSt} (hx : x ≠ .waiting)
+    (h : (r', RSt.waiting) ∈ l.map (fun p => if p.1 = r then (p.1, x) else p)) :
+    (r', RSt.waiting) ∈ l ∧ r' ≠ r := by
+  obtain ⟨p, hp, he⟩ := List.mem_map.1 h
+  split at he
+  · simp only [Prod.mk.injEq] at he
+    exact absurd he.2 hx
+  · rename_i hne
+    subst he
+    exact ⟨hp, hne⟩
+
+theorem deliver_uniq (s : St) (p : Pend) (res : Except Nat KV) :
+    (deliver s p res).reqs.map (·.1) = s.reqs.map (·.1) := by
+  unfold deliver
+  split
+  · exact map_fst_setStatus _ _ _
+  · rfl
+
+theorem deliver_waiting {s : St} (hu : (s.reqs.map (·.1)).Nodup) (p : Pend) (res : Except Nat KV)
+    {r : Nat} (h : (r, RSt.waiting) ∈ (deliver s p res).reqs) :
+    (r, RSt.waiting) ∈ s.reqs ∧ r ≠ p.rid := by
+  unfold deliver at h
+  split at h
+  · exact mem_setStatus (by decide) h
+  · rename_i hs
+    refine ⟨h, ?_⟩
+    intro e; subst e
+    exact hs (lookup_of_mem hu h)
+
+theorem foldl_deliver_waiting (g : Pend → Except Nat KV) : ∀ (l : List Pend) (s : St),
+    (s.reqs.map (·.1)).Nodup →
+    ((l.foldl (fun acc p => deliver acc p (g p)) s).reqs.map (·.1) = s.reqs.map (·.1)) ∧
+    ∀ r, (r, RSt.waiting) ∈ (l.foldl (fun acc p => deliver acc p (g p)) s).reqs →
+      (r, RSt.waiting) ∈ s.reqs ∧ ∀ p ∈ l, r ≠ p.rid := by
+  intro l
+  induction l with
+  | nil => intro s _; exact ⟨rfl, fun r h => ⟨h, by simp⟩⟩
+  | cons q l ih =>
+    intro s hu
+    rw [List.foldl_cons]
+    have hu' : ((deliver s q (g q)).reqs.map (·.1)).Nodup := by rw [deliver_uniq]; exact hu
+    obtain ⟨h1, h2⟩ := ih _ hu'
+    refine ⟨by rw [h1, deliver_uniq], ?_⟩
+    intro r hr
+    obtain ⟨h3, h4⟩ := h2 r hr
+    obtain ⟨h5, h6⟩ := deliver_waiting hu q (g q) h3
+    refine ⟨h5, ?_⟩
+    intro p hp
+    rcases List.mem_cons.1 hp with e | e
+    · subst e; exact h6
+    · exact h4 p e
+
+theorem live_mem_set {l : List Task} {i : Nat} {t t' x : Task} (hx : x ∈ l) (hi : l[i]? = some t)
+    (hl : Live x) (hnl : ¬ Live t) : x ∈ l.set i t' := by
+  rcases mem_set_or (t' := t') hx hi with h | h
+  · exact h
+  · subst h; exact absurd hl hnl
+
+theorem enqueue_inv2 {s : St} (hi : Inv2 s) (r : Nat) (hr : s.status r = none) (miss : List Key) (hit : KV) :
+    Inv2 (enqueue s r miss hit) := by
+  have hnm := not_mem_of_lookup_none hr
+  have hu : ∀ x : RSt, ((s.reqs ++ [(r, x)]).map (·.1)).Nodup := by
+    intro x
+    rw [List.map_append, List.nodup_append]
+    refine ⟨hi.uniq, by simp, ?_⟩
+    intro a ha b hb
+    simp at hb
+    subst hb
+    intro e; subst e; exact hnm ha
+  unfold enqueue
+  by_cases hne : miss = []
+  · rw [if_pos hne]
+    refine ⟨hu _, ?_⟩
+    intro r' h'
+    simp only [St.emit, List.mem_append, List.mem_singleton, Prod.mk.injEq] at h'
+    rcases h' with h' | h'
+    · exact hi.wait r' h'
+    · exact absurd h'.2 (by decide)
+  · rw [if_neg hne]
+    dsimp only
+    have hw : ∀ r', (r', RSt.waiting) ∈ s.reqs ++ [(r, RSt.waiting)] →
+        (∃ p ∈ s.pending ++ [({ rid := r, keys := miss, cached := hit } : Pend)], p.rid = r') ∨
+        ∃ t ∈ s.tasks, Live t ∧ ∃ p ∈ t.waiters, p.rid = r' := by
+      intro r' h'
+      rcases List.mem_append.1 h' with h' | h'
+      · rcases hi.wait r' h' with ⟨p, hp, e⟩ | h
+        · exact Or.inl ⟨p, List.mem_append.2 (Or.inl hp), e⟩
+        · exact Or.inr h
+      · simp only [List.mem_singleton, Prod.mk.injEq] at h'
+        exact Or.inl ⟨_, List.mem_append.2 (Or.inr (List.mem_singleton.2 rfl)), h'.1.symm⟩
+    split
+    · refine ⟨hu _, ?_⟩
+      intro r' h'
+      right
+      rcases hw r' h' with ⟨p, hp, e⟩ | ⟨t, ht, hl, h⟩
+      · exact ⟨_, List.mem_append.2 (Or.inr (List.mem_singleton.2 rfl)), Or.inr ⟨rfl, rfl⟩, p, hp, e⟩
+      · exact ⟨t, List.mem_append.2 (Or.inl ht), hl, h⟩
+    · split
+      · refine ⟨hu _, ?_⟩
+        intro r' h'
+        rcases hw r' h' with h | ⟨t, ht, hl, h⟩
+        · exact Or.inl h
+        · exact Or.inr ⟨t, List.mem_append.2 (Or.inl ht), hl, h⟩
+      · exact ⟨hu _, hw⟩
+
+theorem loadStep_inv2 {s : St} (hi : Inv2 s) (r : Nat) (ks : List Key) : Inv2 (loadStep s r ks) := by
+  unfold loadStep
+  split
+  · exact hi
+  · rename_i h
+    apply enqueue_inv2 hi
+    cases hs : s.status r with
+    | none => rfl
+    | some x => rw [hs] at h; simp at h
+
+theorem runStep_inv2 {s : St} (hi : Inv2 s) (i : Nat) : Inv2 (runStep s i) := by
+  unfold runStep
+  split
+  · rename_i t ht
+    by_cases hph : t.phase = .fresh
+    · rw [if_pos hph]
+      have key : ∀ ph : Phase, (t.fetch = false → ph = .flight) →
+          Inv2 { s with tasks := s.tasks.set i { t with phase := ph } } := by
+        intro ph hph'
+        refine ⟨hi.uniq, ?_⟩
+        intro r hr
+        rcases hi.wait r hr with h | ⟨x, hx, hl, h⟩
+        · exact Or.inl h
+        · right
+          rcases mem_set_or (t' := { t with phase := ph }) hx ht with h1 | h1
+          · exact ⟨x, h1, hl, h⟩
+          · subst h1
+            refine ⟨_, List.mem_set (lt_of_getElem? ht) _, ?_, h⟩
+            rcases hl with hl | hl
+            · rw [hph] at hl; cases hl
+            · exact Or.inl (hph' hl.1)
+      by_cases hf : t.fetch = true
+      · rw [if_pos hf]
+        exact Inv2.congr (by rfl) (key .timer (by rw [hf]; intro h; cases h))
+      · rw [if_neg hf]
+        exact Inv2.congr (by rfl) (key .flight (fun _ => rfl))
+    · rw [if_neg hph]; exact hi
+  · exact hi
+
+theorem fireStep_inv2 {s : St} (h1 : Inv s) (hi : Inv2 s) (i : Nat) : Inv2 (fireStep s i) := by
+  unfold fireStep
+  split
+  · rename_i t ht
+    by_cases hph : t.phase = .timer
+    · rw [if_pos hph]
+      have hnl : ¬ Live t := by
+        rintro (h | h)
+        · rw [hph] at h; cases h
+        · rw [hph] at h; cases h.2
+      by_cases hk : s.keys = []
+      · rw [if_pos hk]
+        refine ⟨hi.uniq, ?_⟩
+        intro r hr
+        rcases hi.wait r hr with ⟨p, hp, _⟩ | ⟨x, hx, hl, h⟩
+        · rw [pending_nil_of_keys_nil h1 hk] at hp; cases hp
+        · exact Or.inr ⟨x, live_mem_set hx ht hl hnl, hl, h⟩
+      · rw [if_neg hk]
+        refine Inv2.congr (s := { s with keys := [], pending := [], tasks := s.tasks.set i { t with phase := .flight, keys := s.keys, waiters := s.pending } }) (by rfl) ⟨hi.uniq, ?_⟩
+        intro r hr
+        right
+        rcases hi.wait r hr with h | ⟨x, hx, hl, h⟩
+        · exact ⟨_, List.mem_set (lt_of_getElem? ht) _, Or.inl rfl, h⟩
+        · exact ⟨x, live_mem_set hx ht hl hnl, hl, h⟩
+    · rw [if_neg hph]; exact hi
+  · exact hi
+
+theorem doneStep_inv2 {s : St} (hi : Inv2 s) (i : Nat) (resp : Resp) : Inv2 (doneStep s i resp) := by
+  unfold doneStep
+  split
+  · rename_i t ht
+    by_cases hph : t.phase = .flight
+    · rw [if_pos hph]
+      dsimp only
+      have main : ∀ (g : Pend → Except Nat KV) (s2 : St), core2 s2 = core2 { s with tasks := s.tasks.set i { t with phase := .fin } } →
+          Inv2 (t.waiters.foldl (fun acc p => deliver acc p (g p)) s2) := by
+        intro g s2 hc
+        simp only [core2, Prod.mk.injEq] at hc
+        obtain ⟨c1, c2, c3⟩ := hc
+        have hu2 : (s2.reqs.map (·.1)).Nodup := by rw [c3]; exact hi.uniq
+        obtain ⟨f1, f2⟩ := foldl_deliver_waiting g t.waiters s2 hu2
+        have fc := foldl_core _ (fun s p => deliver_core s p (g p)) t.waiters s2
+        simp only [core, Prod.mk.injEq] at fc
+        refine ⟨by rw [f1]; exact hu2, ?_⟩
+        intro r hr
+        obtain ⟨g1, g2⟩ := f2 r hr
+        rw [c3] at g1
+        rw [fc.2.2.1, fc.2.2.2, c1, c2]
+        rcases hi.wait r g1 with h | ⟨x, hx, hl, p, hp, e⟩
+        · exact Or.inl h
+        · right
+          rcases mem_set_or (t' := { t with phase := .fin }) hx ht with h1 | h1
+          · exact ⟨x, h1, hl, p, hp, e⟩
+          · subst h1
+            exact absurd e.symm (g2 p hp)
+      split
+      · apply main (fun p => .ok (waiterResult _ p))
+        split
+        · rfl
+        · unfold St.fill; split <;> rfl
+      · exact main (fun _ => .error _) _ rfl
+    · rw [if_neg hph]; exact hi
+  · exact hi
+
+theorem foldl_inv12 {α : Type} (f : St → α → St) (hf : ∀ s a, Inv s ∧ Inv2 s → Inv (f s a) ∧ Inv2 (f s a))
+    (l : List α) : ∀ s, Inv s ∧ Inv2 s → Inv (l.foldl f s) ∧ Inv2 (l.foldl f s) := by
+  induction l with
+  | nil => intro s h; exact h
+  | cons a l ih => intro s h; exact ih _ (hf s a h)
+
+theorem drainStep_inv2 {s : St} (h1 : Inv s) (hi : Inv2 s) : Inv2 (drainStep s) := by
+  simp only [drainStep]
+  refine (foldl_inv12 _ (fun s i h => ⟨doneStep_inv h.1 i _, doneStep_inv2 h.2 i _⟩) _ _ ?_).2
+  refine foldl_inv12 _ (fun s i h => ⟨fireStep_inv h.1 i, fireStep_inv2 h.1 h.2 i⟩) _ _ ?_
+  exact foldl_inv12 _ (fun s i h => ⟨runStep_inv h.1 i, runStep_inv2 h.2 i⟩) _ _ ⟨h1, hi⟩
+
+theorem apply_inv2 {s : St} (h1 : Inv s) (hi : Inv2 s) (a : Act) : Inv2 (apply s a) := by
+  cases a with
+  | load r ks => exact loadStep_inv2 hi r ks
+  | run i => exact runStep_inv2 hi i
+  | fire i => exact fireStep_inv2 h1 hi i
+  | done i resp => exact doneStep_inv2 hi i resp
+  | cancel r =>
+    simp only [apply, cancelStep]
+    split
+    · refine ⟨by simp only [St.setStatus]; rw [map_fst_setStatus]; exact hi.uniq, ?_⟩
+      intro r' hr'
+      exact hi.wait r' (mem_setStatus (by decide) hr').1
+    · exact hi
+  | enall b => exact Inv2.congr (by rfl) hi
+  | entype b => exact Inv2.congr (by rfl) hi
+  | feed kv =>
+    simp only [apply, St.fill]
+    split
+    · exact Inv2.congr (by rfl) hi
+    · exact hi
+  | clear => exact Inv2.congr (by rfl) hi
+  | drain => exact drainStep_inv2 h1 hi
+
+theorem step_inv2 {s : St} (h1 : Inv s) (hi : Inv2 s) (a : Act) : Inv2 (step s a) :=
+  apply_inv2 (Inv.congr (by rfl) h1) (Inv2.congr (by rfl) hi) a
+
+theorem init_inv2 (max delay : Nat) (hasCache : Bool) (feed : KV) : Inv2 (init max delay hasCache feed) := by
+  have h0 : Inv2 ({ max := max, delay := delay, hasCache := hasCache } : St) :=
+    ⟨by simp, by simp⟩
+  unfold init St.fill
+  split
+  · exact Inv2.congr (by rfl) h0
+  · exact h0
+
+theorem runAll_inv2 (acts : List Act) : ∀ s, Inv s → Inv2 s → Inv2 (runAll s acts) := by
+  intro s h1 h2
+  exact (foldl_inv12 step (fun _ a h => ⟨step_inv h.1 a, step_inv2 h.1 h.2 a⟩) acts s ⟨h1, h2⟩).2
+
+
+/-! ### the three folds of `drain` -/
+
+/-- task `j` (if there is one) is not in phase `ph` -/
+def NotPh (ph : Phase) (j : Nat) (s : St) : Prop := ∀ t, s.tasks[j]? = some t → t.phase ≠ ph
+
+/-- from `s` to `s'` only task `i` may have changed its phase, and only from `A` to a phase in `B` -/
+def Trans (A : Phase) (B : Phase → Prop) (i : Nat) (s s' : St) : Prop :=
+  ∀ j x, s'.tasks[j]? = some x → ∃ t, s.tasks[j]? = some t ∧
+    ((x.phase = t.phase ∧ (j = i → t.phase ≠ A)) ∨ (t.phase = A ∧ B x.phase))
+
+theorem Trans.refl_of {A : Phase} {B : Phase → Prop} {i : Nat} {s s' : St} (h : s'.tasks = s.tasks)
+    (hA : ∀ t, s.tasks[i]? = some t → t.phase ≠ A) : Trans A B i s s' := by
+  intro j x hx
+  rw [h] at hx
+  exact ⟨x, hx, Or.inl ⟨rfl, fun e => hA x (e ▸ hx)⟩⟩
+
+theorem Trans.of_set {A : Phase} {B : Phase → Prop} {i : Nat} {s s' : St} {t t' : Task}
+    (ht : s.tasks[i]? = some t) (hA : t.phase = A) (hB : B t'.phase)
+    (h : s'.tasks = s.tasks.set i t') : Trans A B i s s' := by
+  intro j x hx
+  rw [h, List.getElem?_set] at hx
+  by_cases e : i = j
+  · subst e
+    rw [if_pos rfl] at hx
+    split at hx
+    · cases hx
+      exact ⟨t, ht, Or.inr ⟨hA, hB⟩⟩
+    · cases hx
+  · rw [if_neg e] at hx
+    exact ⟨x, hx, Or.inl ⟨rfl, fun e' => absurd e'.symm e⟩⟩
+
+theorem Trans.self {A : Phase} {B : Phase → Prop} {i : Nat} {s s' : St} (h : Trans A B i s s')
+    (hB : ¬ B A) : NotPh A i s' := by
+  intro x hx hp
+  obtain ⟨t, _, h1 | h1⟩ := h i x hx
+  · exact h1.2 rfl (h1.1 ▸ hp)
+  · exact hB (hp ▸ h1.2)
+
+theorem Trans.pres {A C : Phase} {B : Phase → Prop} {i j : Nat} {s s' : St} (h : Trans A B i s s')
+    (hB : ¬ B C) (hs : NotPh C j s) : NotPh C j s' := by
+  intro x hx hp
+  obtain ⟨t, ht, h1 | h1⟩ := h j x hx
+  · exact hs t ht (h1.1 ▸ hp)
+  · exact hB (hp ▸ h1.2)
+
+theorem runStep_trans (s : St) (i : Nat) :
+    Trans .fresh (fun p => p = .timer ∨ p = .flight) i s (runStep s i) := by
+  unfold runStep
+  split
+  · rename_i t ht
+    by_cases hph : t.phase = .fresh
+    · rw [if_pos hph]
+      by_cases hf : t.fetch = true
+      · rw [if_pos hf]
+        exact Trans.of_set (t' := { t with phase := .timer }) ht hph (Or.inl rfl) rfl
+      · rw [if_neg hf]
+        exact Trans.of_set (t' := { t with phase := .flight }) ht hph (Or.inr rfl) rfl
+    · rw [if_neg hph]
+      exact Trans.refl_of rfl (fun x hx => by rw [ht] at hx; cases hx; exact hph)
+  · rename_i hn
+    exact Trans.refl_of rfl (fun x hx => by rw [hn] at hx; cases hx)
+
+theorem fireStep_trans (s : St) (i : Nat) :
+    Trans .timer (fun p => p = .fin ∨ p = .flight) i s (fireStep s i) := by
+  unfold fireStep
+  split
+  · rename_i t ht
+    by_cases hph : t.phase = .timer
+    · rw [if_pos hph]
+      by_cases hk : s.keys = []
+      · rw [if_pos hk]
+        exact Trans.of_set (t' := { t with phase := .fin }) ht hph (Or.inl rfl) rfl
+      · rw [if_neg hk]
+        exact Trans.of_set (t' := { t with phase := .flight, keys := s.keys, waiters := s.pending }) ht hph (Or.inr rfl) rfl
+    · rw [if_neg hph]
+      exact Trans.refl_of rfl (fun x hx => by rw [ht] at hx; cases hx; exact hph)
+  · rename_i hn
+    exact Trans.refl_of rfl (fun x hx => by rw [hn] at hx; cases hx)
+
+theorem foldl_deliver_tasks (g : Pend → Except Nat KV) (l : List Pend) (s : St) :
+    (l.foldl (fun acc p => deliver acc p (g p)) s).tasks = s.tasks := by
+  have fc := foldl_core _ (fun s p => deliver_core s p (g p)) l s
+  simp only [core, Prod.mk.injEq] at fc
+  exact fc.2.2.2
+
+theorem doneStep_trans (s : St) (i : Nat) (resp : Resp) :
+    Trans .flight (fun p => p = .fin) i s (doneStep s i resp) := by
+  unfold doneStep
+  split
+  · rename_i t ht
+    by_cases hph : t.phase = .flight
+    · rw [if_pos hph]
+      dsimp only
+      split
+      · rename_i vals _
+        refine Trans.of_set (B := fun p => p = Phase.fin) (t' := { t with phase := .fin }) ht hph rfl ?_
+        rw [foldl_deliver_tasks (fun p => .ok (waiterResult vals p))]
+        split
+        · rfl
+        · unfold St.fill; split <;> rfl
+      · rename_i er _
+        refine Trans.of_set (B := fun p => p = Phase.fin) (t' := { t with phase := .fin }) ht hph rfl ?_
+        rw [foldl_deliver_tasks (fun _ => .error er)]
+    · rw [if_neg hph]
+      exact Trans.refl_of rfl (fun x hx => by rw [ht] at hx; cases hx; exact hph)
+  · rename_i hn
+    exact Trans.refl_of rfl (fun x hx => by rw [hn] at hx; cases hx)
+
+
+theorem Trans.len {A : Phase} {B : Phase → Prop} {i : Nat} {s s' : St} (h : Trans A B i s s') :
+    s'.tasks.length ≤ s.tasks.length := by
+  apply Nat.le_of_not_lt
+  intro hlt
+  obtain ⟨t, ht, _⟩ := h s.tasks.length _ (List.getElem?_eq_getElem hlt)
+  have := lt_of_getElem? ht
+  omega
+
+theorem foldl_range_establish (Q : Nat → St → Prop) (f : St → Nat → St)
+    (hpres : ∀ s i j, Q j s → Q j (f s i)) (hest : ∀ s i, Q i (f s i)) :
+    ∀ n s, ∀ j < n, Q j ((List.range n).foldl f s) := by
+  intro n
+  induction n with
+  | zero => intro s j hj; omega
+  | succ n ih =>
+    intro s j hj
+    rw [List.range_succ, List.foldl_append]
+    simp only [List.foldl_cons, List.foldl_nil]
+    by_cases e : j = n
+    · subst e; exact hest _ _
+    · exact hpres _ _ _ (ih s j (by omega))
+
+theorem foldl_pres {α : Type} (R : St → Prop) (f : St → α → St) (hf : ∀ s a, R s → R (f s a)) (l : List α) :
+    ∀ s, R s → R (l.foldl f s) := by
+  induction l with
+  | nil => intro s h; exact h
+  | cons a l ih => intro s h; exact ih _ (hf s a h)
+
+/-- after the three folds of `drain` every task has finished -/
+theorem drainStep_all_fin (s : St) : ∀ t ∈ (drainStep s).tasks, t.phase = .fin := by
+  intro t ht
+  obtain ⟨j, hj, hjt⟩ := List.mem_iff_getElem.1 ht
+  have hget : (drainStep s).tasks[j]? = some t := by rw [List.getElem?_eq_getElem hj, hjt]
+  have hj' : j < (drainStep s).tasks.length := hj
+  clear hjt ht
+  replace hj := hj'
+  clear hj'
+  simp only [drainStep] at hj hget
+  generalize hn : s.tasks.length = n at hj hget
+  -- lengths
+  have l1 : ((List.range n).foldl runStep s).tasks.length ≤ n :=
+    foldl_pres (fun x => x.tasks.length ≤ n) _ (fun x i h => Nat.le_trans (runStep_trans x i).len h) _ s (by omega)
+  have l2 := foldl_pres (fun x => x.tasks.length ≤ n) _ (fun x i h => Nat.le_trans (fireStep_trans x i).len h)
+    (List.range n) _ l1
+  have l3 := foldl_pres (fun x => x.tasks.length ≤ n) _
+    (fun x i h => Nat.le_trans (doneStep_trans x i (.okall 1000)).len h) (List.range n) _ l2
+  have hjn : j < n := Nat.lt_of_lt_of_le hj l3
+  -- not fresh
+  have a1 := foldl_range_establish (NotPh .fresh) runStep
+    (fun x i j h => (runStep_trans x i).pres (by simp) h) (fun x i => (runStep_trans x i).self (by simp)) n s j hjn
+  have a2 := foldl_pres (NotPh .fresh j) _ (fun x i h => (fireStep_trans x i).pres (by simp) h) (List.range n) _ a1
+  have a3 := foldl_pres (NotPh .fresh j) _ (fun x i h => (doneStep_trans x i (.okall 1000)).pres (by simp) h)
+    (List.range n) _ a2
+  -- not waiting for the timer
+  have b2 := foldl_range_establish (NotPh .timer) fireStep
+    (fun x i j h => (fireStep_trans x i).pres (by simp) h) (fun x i => (fireStep_trans x i).self (by simp)) n ((List.range n).foldl runStep s) j hjn
+  have b3 := foldl_pres (NotPh .timer j) _ (fun x i h => (doneStep_trans x i (.okall 1000)).pres (by simp) h)
+    (List.range n) _ (b2)
+  -- not in flight
+  have c3 := foldl_range_establish (NotPh .flight) (fun acc i => doneStep acc i (.okall 1000))
+    (fun x i j h => (doneStep_trans x i _).pres (by simp) h) (fun x i => (doneStep_trans x i _).self (by simp)) n
+    ((List.range n).foldl fireStep ((List.range n).foldl runStep s)) j hjn
+  have e1 := a3 t hget
+  have e2 := b3 t hget
+  have e3 := c3 t hget
+  cases hp : t.phase <;> simp_all
+
+/-- `drain` leaves no request waiting -/
+theorem drainStep_no_waiting {s : St} (h1 : Inv s) (h2 : Inv2 s) : (drainStep s).waitingReqs = [] := by
+  have i1 : Inv (drainStep s) := apply_inv h1 .drain
+  have i2 : Inv2 (drainStep s) := drainStep_inv2 h1 h2
+  have hfin := drainStep_all_fin s
+  have hk : (drainStep s).keys = [] := by
+    apply Classical.byContradiction
+    intro hne
+    obtain ⟨t, ht, _, hp⟩ := i1.timer hne
+    rw [hfin t ht] at hp
+    rcases hp with hp | hp <;> cases hp
+  have hp := pending_nil_of_keys_nil i1 hk
+  unfold St.waitingReqs
+  rw [List.map_eq_nil_iff, List.filter_eq_nil_iff]
+  intro p hp' hw
+  obtain ⟨r, x⟩ := p
+  simp only [decide_eq_true_eq] at hw
+  subst hw
+  rcases i2.wait r hp' with ⟨q, hq, _⟩ | ⟨t, ht, hl, _⟩
+  · rw [hp] at hq; cases hq
+  · rw [Live, hfin t ht] at hl
+    rcases hl with hl | hl
+    · cases hl
+    · cases hl.2
+
+
 end AGV.Lemmas.Loader
